@@ -1075,3 +1075,47 @@ def gen_sibling_dependency_spec(rng, wdomain='real'):
     if wdomain == 'log':
         weights = {t: map_nested(w, math.log) for t, w in weights.items()}
     return dict(domains={'L0': dom}, terminals=terminals, nonterminals=nts, start='S', rules=rules, weights=weights, wdomain=wdomain)
+
+
+def gen_dense_linear_scc_spec(rng, wdomain='real'):
+    """Linearly recursive: one strongly connected component of 4-6 unary nonterminals whose dependency graph is a cycle
+    plus several extra forward and BACK edges (two or more back edges into the same nonterminal, back edges to different
+    nonterminals interleaved in rule order), base rules on a few of them, entered from S at one or two places.  This is the
+    shape on which an elimination order for the block solve (linking / non-linking nonterminals found by a DFS) has real
+    choices; which nonterminal the DFS starts from depends on how the grammar is written down."""
+    k = rng.randint(4, 6)
+    dom = rng.randint(1, 2)
+    nt = [f'N{i}' for i in range(k)]
+    terminals, weights, rules = {}, {}, []
+
+    def term(arity, scale):
+        t = f'f{len(terminals)}'
+        terminals[t] = ['L0'] * arity
+        weights[t] = nested([dom] * arity, lambda *_: round(rng.uniform(0.2, 1.0) * scale, 4))
+        return t
+    succ = {i: {(i + 1) % k} for i in range(k)}
+    for i in range(k):
+        for j in range(k):
+            if i != j and rng.random() < 0.35:
+                succ[i].add(j)
+    tgt = rng.randrange(k)                                       # one nonterminal with several incoming back edges
+    for i in rng.sample([i for i in range(k) if i != tgt], 2):
+        succ[i].add(tgt)
+    for i in range(k):
+        js = sorted(succ[i])
+        rng.shuffle(js)
+        for j in js:
+            rules.append(dict(lhs=nt[i], nodes=['L0', 'L0'], ext=[0], edges=[[term(2, 0.5 / len(js)), [0, 1]], [nt[j], [1]]]))
+    for i in rng.sample(range(k), rng.randint(1, 2)):
+        rules.append(dict(lhs=nt[i], nodes=['L0'], ext=[0], edges=[[term(1, 1.0), [0]]]))
+    for i in rng.sample(range(k), rng.randint(1, 2)):
+        rules.append(dict(lhs='S', nodes=['L0'], ext=[], edges=[[term(1, 1.0), [0]], [nt[i], [0]]]))
+    rng.shuffle(rules)
+    nts = {'S': []}
+    decl = list(nt)
+    rng.shuffle(decl)
+    for n in decl:
+        nts[n] = ['L0']
+    if wdomain == 'log':
+        weights = {t: map_nested(w, math.log) for t, w in weights.items()}
+    return dict(domains={'L0': dom}, terminals=terminals, nonterminals=nts, start='S', rules=rules, weights=weights, wdomain=wdomain)
